@@ -67,6 +67,7 @@ type SysScenario struct {
 	Max     int         `json:"max"`
 	Peers   []PeerPlan  `json:"peers"`
 	BoundMs int         `json:"bound_ms,omitempty"`
+	ReadStalls []ReadStall `json:"read_stalls,omitempty"`
 	Origin  interface{} `json:"origin,omitempty"`
 }
 
@@ -457,7 +458,7 @@ func (run *sysRun) ServeHTTP(w http.ResponseWriter, r *http.Request) {
 func (r *Rig) RunSys(sc *SysScenario, index int) *Result {
 	t0 := time.Now()
 	rec := NewRecorder()
-	plan := &SessionPlan{Up: sc.Up, Down: sc.Down}
+	plan := &SessionPlan{Up: sc.Up, Down: sc.Down, ReadStalls: sc.ReadStalls}
 	sr := &scenarioRun{rig: r, sc: &Scenario{Name: sc.Name, Seed: sc.Seed}, rec: rec, oindex: map[string]int{}, stale: r.Stale, t0: t0, endCh: make(chan struct{})}
 	sr.ocond = sync.NewCond(&sr.omu)
 	sr.lastFault = t0
